@@ -231,6 +231,14 @@ def write_evidence_file(prop, meta, run, facts, tier, seed, wall, violations, kn
             "enums": len(facts.enums) if facts else 0,
             "extract_seconds": round(facts.extract_s, 2) if facts else 0,
             "facts_from_content_hash_cache": bool(facts.cache_hit) if facts else False,
+            "normalisation": {
+                "rule": "N1 inlining of local lambdas, non-public/internal helpers that are not analysis units and pure getters; "
+                        "N2 forward substitution of pure never-written locals; constant folding (cdnsverif/normalize.py)",
+                "calls_inlined": (facts.norm_stats or {}).get("inlined_calls", 0),
+                "calls_left_as_calls": (facts.norm_stats or {}).get("kept_calls", 0),
+                "local_uses_substituted": (facts.norm_stats or {}).get("propagated_uses", 0),
+                "helpers_analysed_only_in_callers": sorted((facts.norm_stats or {}).get("helpers_absorbed", [])),
+            } if facts else {},
         },
         "known_findings_reported": [{"rule": o.rule, "instance": o.key, "what": k.get("what")} for o, k in known_hits],
         "analysis_broken": [{"rule": r, "reason": x} for r, x in broken],
